@@ -206,6 +206,26 @@ def scenarios_bin(log):
     return _SCEN
 
 
+def strace_lines(path):
+    """strace -f output with `<unfinished ...>` / `<... resumed>` pairs joined (per pid) into one line at
+    the position where the call started."""
+    lines = open(path).read().splitlines()
+    out, pending = [], {}
+    for ln in lines:
+        m = re.match(r"(\d+)\s+(.*)$", ln)
+        pid, body = (m.group(1), m.group(2)) if m else ("", ln)
+        if body.endswith("<unfinished ...>"):
+            pending[pid] = len(out)
+            out.append(pid + " " + body[:-len("<unfinished ...>")])
+            continue
+        r = re.match(r"<\.\.\. \w+ resumed>(.*)$", body)
+        if r and pid in pending:
+            out[pending.pop(pid)] += r.group(1)
+            continue
+        out.append(ln)
+    return out
+
+
 def run_scenario(name, log, outdir):
     """Replay an engine-P counterexample as a concrete history against the real crate.
     Returns (violated: bool|None, transcript path). None = scenario could not run."""
@@ -221,7 +241,7 @@ def run_scenario(name, log, outdir):
         if not os.path.exists(st):
             return None, tr
         ev = []
-        for ln in open(st):
+        for ln in strace_lines(st):
             m = re.search(r"(pwrite64|fsync|fdatasync|ftruncate)\(\d+<([^>]*)>", ln)
             if m:
                 ev.append((m.group(1), os.path.basename(m.group(2))))
@@ -246,7 +266,7 @@ def run_scenario(name, log, outdir):
             return None, tr
         ev = []
         dbdir = os.path.abspath(d)
-        for ln in open(st):
+        for ln in strace_lines(st):
             m = re.search(r"openat\([^,]*, \"([^\"]*rollback[^\"]*\.log)\", ([A-Z_|]+)", ln)
             if m and "O_CREAT" in m.group(2):
                 ev.append(("create", os.path.basename(m.group(1))))
@@ -275,6 +295,120 @@ def run_scenario(name, log, outdir):
         if not creates:
             return None, tr
         return bool(problems), tr
+    if name == "c20_lock_order":
+        st = os.path.join(outdir, name + ".strace")
+        subprocess.run(["strace", "-f", "-y", "-e", "trace=openat,flock", "-o", st, b, "c20_fresh_and_reopen", d],
+                       stdout=subprocess.PIPE, stderr=subprocess.STDOUT, text=True)
+        if not os.path.exists(st):
+            return None, tr
+        dbdir = os.path.abspath(d)
+        ev, problems, locked, nlocks = [], [], False, 0
+        for ln in strace_lines(st):
+            m = re.search(r"flock\(\d+<([^>]*)>, ([A-Z_|]+)\)\s+= (-?\d+)", ln)
+            if m and os.path.dirname(m.group(1)) == dbdir:
+                if "LOCK_EX" in m.group(2) and m.group(3) == "0":
+                    locked = True
+                    nlocks += 1
+                elif "LOCK_UN" in m.group(2):
+                    locked = False
+                ev.append("flock %s %s = %s" % (os.path.basename(m.group(1)), m.group(2), m.group(3)))
+                continue
+            m = re.search(r"openat\([^,]*, \"([^\"]*)\", ([A-Z_|]+)", ln)
+            if m and os.path.dirname(os.path.abspath(m.group(1))) == dbdir and os.path.basename(m.group(1)) != ".lock":
+                ev.append("openat %s %s%s" % (os.path.basename(m.group(1)), m.group(2), "" if locked else "   <-- lock not held"))
+                if not locked:
+                    problems.append("%s opened (%s) while the directory lock is not held" % (os.path.basename(m.group(1)), m.group(2)))
+        with open(tr, "w") as f:
+            f.write("scenario %s: create, commit, drop, reopen, commit, drop under strace (openat / flock inside the db directory)\n" % name)
+            f.write("\n".join(ev)[-6000:])
+            f.write("\nproblems: %s\n" % (problems or "none"))
+        if nlocks == 0:
+            return None, tr
+        return bool(problems), tr
+    if name == "c20_refused_open":
+        # the kernel's answer "somebody else holds the lock" is injected (strace fault injection on the
+        # first flock call: EAGAIN); everything else is the real code. (a) on an empty directory (create
+        # path), (b) on an existing database (open path): the open must be refused, nothing inside the
+        # directory may be removed, renamed, truncated or opened for writing, and the directory survives.
+        import shutil
+        problems, notes = [], []
+        observed = 0
+        for variant in ("empty", "existing"):
+            dv = d + "-" + variant
+            shutil.rmtree(dv, ignore_errors=True)
+            if variant == "empty":
+                os.makedirs(dv)
+            else:
+                subprocess.run([b, "c20_fresh_and_reopen", dv], stdout=subprocess.DEVNULL, stderr=subprocess.DEVNULL)
+            before = sorted((fn, os.path.getsize(os.path.join(dv, fn))) for fn in os.listdir(dv))
+            st = os.path.join(outdir, name + "-" + variant + ".strace")
+            p = subprocess.run(["strace", "-f", "-y", "-e", "trace=flock,openat,unlink,unlinkat,rmdir,rename,renameat,renameat2,truncate,ftruncate",
+                                "-e", "inject=flock:error=EAGAIN:when=1", "-o", st, b, "c20_try_open", dv],
+                               stdout=subprocess.PIPE, stderr=subprocess.STDOUT, text=True)
+            if "child-open: REFUSED" not in p.stdout or not os.path.exists(st):
+                notes.append("%s: open was not refused under the injected EAGAIN (%s)" % (variant, p.stdout.strip()[-120:]))
+                if "child-open: OPENED" in p.stdout:
+                    problems.append("%s: open succeeded although flock reported EAGAIN" % variant)
+                    observed += 1
+                continue
+            observed += 1
+            dbdir = os.path.abspath(dv)
+            failed = False
+            for ln in strace_lines(st):
+                if re.search(r"flock\(.*\(INJECTED\)", ln):
+                    failed = True
+                    continue
+                if not failed:
+                    continue
+                m = re.search(r"(unlink|unlinkat|rmdir|rename|renameat|renameat2|truncate|ftruncate)\(([^)]*)\)", ln)
+                if m and dbdir in m.group(2):
+                    problems.append("%s: after the refused lock: %s(%s)" % (variant, m.group(1), m.group(2)[:120]))
+                m = re.search(r"openat\([^,]*, \"([^\"]*)\", ([A-Z_|]+)", ln)
+                if m and os.path.dirname(os.path.abspath(m.group(1))) == dbdir and re.search(r"O_WRONLY|O_RDWR|O_CREAT|O_TRUNC", m.group(2)):
+                    problems.append("%s: after the refused lock: %s opened with %s" % (variant, os.path.basename(m.group(1)), m.group(2)))
+            if not os.path.isdir(dv):
+                problems.append("%s: the directory is gone after the refused open" % variant)
+            else:
+                after = sorted((fn, os.path.getsize(os.path.join(dv, fn))) for fn in os.listdir(dv) if fn != ".lock")
+                if after != [x for x in before if x[0] != ".lock"]:
+                    problems.append("%s: directory contents changed by the refused open: %s -> %s" % (variant, before, after))
+            shutil.rmtree(dv, ignore_errors=True)
+        with open(tr, "w") as f:
+            f.write("scenario %s: open with the first flock() answered EAGAIN by fault injection (empty directory, existing database)\n" % name)
+            f.write("\n".join(notes) + "\nproblems: %s\n" % (problems or "none"))
+        if not observed:
+            return None, tr
+        return bool(problems), tr
+    if name == "c20_release_order":
+        st = os.path.join(outdir, name + ".strace")
+        subprocess.run(["strace", "-f", "-y", "-e", "trace=write,flock", "-o", st, b, "c20_drop_with_inflight_io", d],
+                       stdout=subprocess.PIPE, stderr=subprocess.STDOUT, text=True)
+        if not os.path.exists(st):
+            return None, tr
+        ev = []
+        for ln in strace_lines(st):
+            if "verif-io-complete" in ln:
+                ev.append("completion")
+            elif "verif-commit-returned" in ln:
+                ev.append("commit-returned")
+            elif "verif-handle-dropped" in ln:
+                ev.append("handle-dropped")
+            elif re.search(r"flock\(\d+<[^>]*\.lock>, LOCK_UN", ln):
+                ev.append("unlock")
+        with open(tr, "w") as f:
+            f.write("scenario %s: commit fails on its first hash-table write completion, the other completions are held back; drop(handle) under strace\n" % name)
+            f.write("\n".join(ev))
+            if "unlock" not in ev or "commit-returned" not in ev:
+                f.write("\nverdict: not observed\n")
+                return None, tr
+            inflight = ev[ev.index("commit-returned"):].count("completion")
+            late = ev[ev.index("unlock"):].count("completion")
+            f.write("\ncompletions outstanding when commit returned: %d; delivered after flock(LOCK_UN): %d\n" % (inflight, late))
+            if inflight == 0:
+                f.write("verdict: not observed (nothing was in flight)\n")
+                return None, tr
+            f.write("verdict: %s\n" % ("VIOLATED: the directory lock was released while I/O was still in flight" if late else "holds"))
+        return late > 0, tr
     if name == "c04_commit_order":
         st = os.path.join(outdir, name + ".strace")
         subprocess.run(["strace", "-f", "-y", "-e", "trace=pwrite64,write,fsync,fdatasync,ftruncate", "-o", st, b, "c04_two_commits", d],
@@ -282,7 +416,7 @@ def run_scenario(name, log, outdir):
         if not os.path.exists(st):
             return None, tr
         ev = []
-        for ln in open(st):
+        for ln in strace_lines(st):
             m = re.search(r"(pwrite64|write|fsync|fdatasync|ftruncate)\(\d+<([^>]*)>", ln)
             if m and os.path.basename(m.group(2)) in ("ht", "wal", "meta", "ln", "bbn"):
                 c = m.group(1)
@@ -356,8 +490,13 @@ def _run_path_queries(prop, o, res, queries, encoded, timeout_ms, log, t0):
         for ln in path[-6:]:
             log("      " + ln[:200])
         if q.scenario:
-            violated, tr = run_scenario(q.scenario, log, os.path.join(BUILD, "replay", prop))
-            res["native_replays"] = res.get("native_replays", 0) + 1
+            # several scenarios may be attached (different ways the same path shows up natively): the first
+            # that reproduces is the replay
+            for scen in ([q.scenario] if isinstance(q.scenario, str) else list(q.scenario)):
+                violated, tr = run_scenario(scen, log, os.path.join(BUILD, "replay", prop))
+                res["native_replays"] = res.get("native_replays", 0) + 1
+                if violated:
+                    break
             if violated:
                 res["replayed"] = True
                 res["replay_path"] = tr
@@ -373,7 +512,8 @@ def _run_path_queries(prop, o, res, queries, encoded, timeout_ms, log, t0):
     # also executed natively; it must agree with the solver (hold). A scenario that shows a violation
     # although the path query is unsat is reported as a violation (it is its own native replay).
     if res["status"] == "OK":
-        for scen in sorted({q.scenario for q in queries if q.scenario and q.expect == "unsat"}):
+        for scen in sorted({sc for q in queries if q.scenario and q.expect == "unsat"
+                            for sc in ([q.scenario] if isinstance(q.scenario, str) else q.scenario)}):
             violated, tr = run_scenario(scen, log, os.path.join(BUILD, "replay", prop))
             res["native_replays"] = res.get("native_replays", 0) + 1
             if violated:
